@@ -326,6 +326,12 @@ func modText(a []string) string {
 		if p[1] == "n" {
 			k++
 			ident = fmt.Sprintf("@g%d", k)
+		} else if p[1] == "q" {
+			ident = `@""` // the empty name: an unnamed entity without a written ID
+			id++
+		} else if strings.HasPrefix(p[1], "e") {
+			ident = "@" + p[1][1:] // the ID as written, right or wrong
+			id++
 		} else {
 			ident = fmt.Sprintf("@%d", id)
 			id++
@@ -545,6 +551,14 @@ func init() {
 			return "FAIL unstable"
 		}
 		return "ok"
+	})
+	reg("num.gsrc", func(a []string) string {
+		m, err := asm.ParseString("x.ll", modText(a))
+		if err != nil {
+			return "error"
+		}
+		_ = m.String()
+		return "ok " + modIDs(m)
 	})
 	reg("num.modok", func(a []string) string {
 		m, err := asm.ParseString("x.ll", modText(a))
